@@ -27,10 +27,25 @@ type Result struct {
 	ModeMessage uint16
 	Content     []byte
 	Modes       []string // trace of latches / shifts / binary shifts
+	// RefGridErrors is always 0 for Decode; with Options.IgnoreReferenceGrid
+	// it counts the reference-grid modules that have the wrong colour.
+	RefGridErrors int
+}
+
+// Options relax the decoder.  The zero value is the strict oracle.
+type Options struct {
+	// IgnoreReferenceGrid skips the verification of the reference grid of
+	// full-range symbols (the bull's eye, the orientation marks and the
+	// reference modules inside the mode-message ring are still verified).
+	// The number of wrong modules is reported in Result.RefGridErrors.
+	IgnoreReferenceGrid bool
 }
 
 // Decode reads an Aztec symbol occupying exactly the whole grid.
-func Decode(g *grid.Grid) (*Result, error) {
+func Decode(g *grid.Grid) (*Result, error) { return DecodeWith(g, Options{}) }
+
+// DecodeWith is Decode with some checks optionally disabled.
+func DecodeWith(g *grid.Grid, opt Options) (*Result, error) {
 	if g == nil {
 		return nil, errors.New("aztec: nil grid")
 	}
@@ -60,7 +75,7 @@ func Decode(g *grid.Grid) (*Result, error) {
 	var gm *geom
 	bad := [2]int{-1, -1}
 	for i := 0; i < nc; i++ {
-		bad[i] = cand[i].checkFixed(g)
+		bad[i] = cand[i].checkFixed(g, opt.IgnoreReferenceGrid)
 		if bad[i] < 0 {
 			if gm != nil {
 				// impossible: the two formats contradict each other at
@@ -80,7 +95,15 @@ func Decode(g *grid.Grid) (*Result, error) {
 		}
 		return nil, errors.New(msg)
 	}
-	return gm.decode(g)
+	res, err := gm.decode(g)
+	if err == nil && opt.IgnoreReferenceGrid && !gm.compact {
+		for i, idx := range gm.fixedIdx {
+			if g.Bits[idx] != gm.fixedVal[i] {
+				res.RefGridErrors++
+			}
+		}
+	}
+	return res, err
 }
 
 // modeRSError takes the words by value so that the caller's array stays on
@@ -105,9 +128,13 @@ func (gm *geom) name() string {
 
 // checkFixed returns the index into fixedIdx of the first function-pattern
 // module with the wrong colour, or -1.
-func (gm *geom) checkFixed(g *grid.Grid) int {
+func (gm *geom) checkFixed(g *grid.Grid, coreOnly bool) int {
 	bits := g.Bits
-	for i, idx := range gm.fixedIdx {
+	n := len(gm.fixedIdx)
+	if coreOnly {
+		n = gm.nCore
+	}
+	for i, idx := range gm.fixedIdx[:n] {
 		if bits[idx] != gm.fixedVal[i] {
 			return i
 		}
